@@ -323,7 +323,13 @@ class SDataDict(Model):
     def m_getattr(self, eng, name):
         if name == "pop":
             def pop(eng_, key, default=None):
-                k = self._k(key)
+                if isinstance(key, SKey):
+                    k = self._k(key)
+                else:
+                    # a key that is not a normalised element index (e.g. the caller's raw request): some key of the dictionary's key
+                    # space, not known to be related to any element index (over-approximation)
+                    eng_.used_models.add("cache.pop(<raw request>): removes an unspecified key")
+                    k = z3.Const(eng_.fresh_name("popped_key_of_raw_request"), KeySort)
                 c = self.owner.cache
                 self.owner.cache = CacheState(z3.Store(c.present, k, False), c.tag, c.good)
                 self.owner.writes.append(("pop", k))
